@@ -221,10 +221,17 @@ func (s *sess) op(o string) string {
 	return "?"
 }
 
+// hangs counts the histories stopped by the watchdog; each leaves a spinning goroutine behind,
+// so after a few of them the remaining histories are not run at all.
+var hangs int
+
 func exec(in string) string {
 	f := strings.SplitN(in, " ", 2)
 	if f[0] != "H" {
 		return "?"
+	}
+	if hangs >= 4 {
+		return "not-run:earlier-hangs"
 	}
 	var ops []string
 	if len(f) > 1 && f[1] != "" {
@@ -246,6 +253,9 @@ func exec(in string) string {
 	got := append([]string(nil), outs...)
 	if res != "" {
 		got = append(got, res)
+		if res == "hang" {
+			hangs++
+		}
 	}
 	return strings.Join(got, ";")
 }
